@@ -103,7 +103,7 @@ where
     let adj_matrix = graph.adjacency_matrix();
     let mut bits/*+*/: Vec<usize>/*-*/ = vec![];
     let mut n/*+*/: usize/*-*/ = 0;
-    /*R:D11 for node_id in node_ids_iter */ let mut __it = node_ids_iter; let ghost all = __it.remaining(); loop 
+    /*R:D11 for node_id in */ let mut __it = /*-*/ node_ids_iter /*R:D11 */; let ghost all = __it.remaining(); loop 
         invariant
             __it.obeys_prophetic_iter_laws(), __it.decrease() is Some,
             all == graph.node_ids(), n <= all.len(), __it.remaining() == all.skip(n as int), all.len() < usize::MAX,
